@@ -11,9 +11,21 @@ Termination is NOT proved.
 from .core import PathEnd, Unsupported, Forall, B, I, is_sym
 
 
+def _named(fn, what):
+    """loop specifications talk about the function's local variables BY NAME: after a rename the specification no longer applies -
+    that is a contract to update (undecided), not a verdict about the code and not a checker crash"""
+    def wrapped(ip, env):
+        try:
+            return fn(ip, env)
+        except KeyError as e:
+            raise Unsupported("the contract's loop %s refers to the local variable %s, which the function no longer has (renamed or removed): "
+                              "update the contract file" % (what, e))
+    return wrapped
+
+
 class LoopSpec:
     def __init__(self, inv, havoc, name="loop"):
-        self.inv, self.havoc, self.name = inv, havoc, name
+        self.inv, self.havoc, self.name = _named(inv, "invariant"), _named(havoc, "havoc"), name
 
     def _oblige(self, ip, env, k, phase):
         c = ip.ctx
